@@ -21,13 +21,13 @@ SHRINK = None
 def gen(rng, i, tier):
     c = c11.gen(rng, i, tier)
     c["repeated"] = False
-    if rng.random() < 0.15 and not c.get("shared_info") and c.get("reject_at") is None:
+    if rng.random() < 0.15 and not c.get("shared_info") and c.get("reject_at") is None and not c.get("via_file"):
         # the same measurement contributed twice (a file listed twice, two identical banks) next to a third that differs: every Q of
         # it then has two identical (S, dS) contributions and one other — the mean counts each contribution once
         d0 = c["datasets"][int(rng.integers(0, len(c["datasets"])))]
         twin = {k: (dict(v) if isinstance(v, dict) else list(v) if isinstance(v, list) else v) for k, v in d0.items()}
         other = {k: (dict(v) if isinstance(v, dict) else list(v) if isinstance(v, list) else v) for k, v in d0.items()}
-        other["y"] = [float(v) + 0.7 for v in d0["y"]]
+        other["y"] = [float(v) + (1.0 if d0.get("int_y") else 0.7) for v in d0["y"]]    # whole-number ordinates stay whole numbers
         c["datasets"] += [twin, other]
         c["nd"] = len(c["datasets"])
         c["repeated"] = True
@@ -92,7 +92,12 @@ def evaluate(case):
                 fails.append("merged value outside [min, max] of its contributions")
                 break
     nd = len(case["datasets"])
-    for perm in itertools.permutations(range(nd)):
+    perms = itertools.permutations(range(nd))
+    if case.get("via_file") == "all":
+        perms = [tuple(range(nd))]          # the files are read in the order StoG.files lists them
+    elif nd > 4:
+        perms = itertools.islice(perms, 0, None, max(1, math.factorial(nd) // 24))   # 24 add orders spread over all nd! of them
+    for perm in perms:
         with np.errstate(all="ignore"):
             s2, _ = c11.build(case, perm)
         if s2.sq_individuals.shape[1] == 0:
